@@ -1,3 +1,4 @@
 import Echse.Model.Bitint
 import Echse.Model.Instant
 import Echse.Spec.Cal
+import Echse.Model.Strpf
